@@ -335,6 +335,16 @@ def _evaluate_status(ev):
     if k is None:
         return INCONCLUSIVE, f"cannot tell whether `{norm(m)[:60]}` selects exactly the rows whose fitness is NaN"
     vals = _resolve1(st[0].value, defs)
+    # a list filled step by step: every element must be an objective value of its own row; an element stamped in without an
+    # evaluation (a sentinel repeated for "the rest of the batch") is a fitness the objective never returned for that genome
+    if isinstance(st[0].value, ast.Name):
+        acc = st[0].value.id
+        for c in body_walk(ev.node):
+            if isinstance(c, ast.Call) and isinstance(c.func, ast.Attribute) and c.func.attr in ("extend", "append", "insert") and norm(c.func.value) == acc and c.args:
+                a_ = c.args[-1]
+                evaluated = any(isinstance(x, ast.Call) and isinstance(x.func, ast.Attribute) and x.func.attr == "evaluate" for x in ast.walk(a_))
+                if not evaluated and (isinstance(a_, (ast.Constant, ast.List, ast.BinOp)) or (isinstance(a_, ast.Name) and not any(isinstance(x, ast.Call) and isinstance(x.func, ast.Attribute) and x.func.attr == "evaluate" for d_ in defs.get(a_.id, []) for x in ast.walk(d_)))):
+                    return VIOLATION, f"`{norm(c)[:80]}` puts values into the stored fitness column that are not results of evaluating the rows they are stored for: those individuals carry a fitness their genome was never given by the objective"
     if not (isinstance(vals, ast.ListComp) and len(vals.generators) == 1 and not vals.generators[0].ifs):
         return INCONCLUSIVE, f"stored values `{norm(vals)[:80]}` are not a plain comprehension over the selected rows"
     g = vals.generators[0]
@@ -941,7 +951,10 @@ def r02_10(ctx: Ctx):
                                 st = frozenset(st - {arg.id})
                 loop = n.stmt if n.kind == "forhead" else None
                 if isinstance(loop, ast.For) and isinstance(loop.iter, ast.Name) and loop.iter.id in st and isinstance(loop.target, ast.Name):
-                    if any(isinstance(c, ast.Call) and isinstance(c.func, ast.Attribute) and c.func.attr == "evaluate" and isinstance(c.func.value, ast.Name) and c.func.value.id == loop.target.id for b in loop.body for c in ast.walk(b)):
+                    # every element is evaluated: the call is an unconditional statement of the body and nothing leaves the loop early
+                    uncond = any(isinstance(b, ast.Expr) and isinstance(b.value, ast.Call) and isinstance(b.value.func, ast.Attribute) and b.value.func.attr == "evaluate" and isinstance(b.value.func.value, ast.Name) and b.value.func.value.id == loop.target.id for b in loop.body)
+                    early = any(isinstance(x, (ast.Break, ast.Continue, ast.Return)) for b in loop.body for x in ast.walk(b))
+                    if uncond and not early:
                         st = frozenset(st - {loop.iter.id})
                 for c in ast.walk(a):
                     if isinstance(c, (ast.ListComp, ast.GeneratorExp)) and len(c.generators) == 1 and isinstance(c.generators[0].iter, ast.Name) and c.generators[0].iter.id in st and isinstance(c.elt, ast.Call) and isinstance(c.elt.func, ast.Attribute) and c.elt.func.attr == "evaluate":
@@ -1152,6 +1165,22 @@ def r02_12(ctx: Ctx):
                     adapted = c13._is_sign_adapted(fit, signs, kinds)
                     obs.append(ctx.ob("R02.12", f, c, status=OK if adapted else VIOLATION, detail=f"{ci.name}: fitness taken from the minimiser's bookkeeping and turned back into the objective's own sign" if adapted else f"{ci.name}: `{norm(c)[:90]}` stores `{norm(fit)}`, the value an external minimiser was told (the sign-adapted objective), as the individual's fitness: on a maximisation problem that is -f(genome)", construct=f"{ci.name}:minimiser-value"))
                     continue
+                # the value handed to / prepared for a minimiser (`sign * f`) stored as the individual's fitness
+                from . import c13 as _c13
+
+                src_ = fit
+                if isinstance(fit, ast.Name):
+                    # a comprehension variable over zip(A, B): the corresponding operand
+                    for comp in body_walk(f.node):
+                        if isinstance(comp, ast.comprehension) and isinstance(comp.target, ast.Tuple) and isinstance(comp.iter, ast.Call) and norm(comp.iter.func) == "zip":
+                            for el, a_ in zip(comp.target.elts, comp.iter.args):
+                                if isinstance(el, ast.Name) and el.id == fit.id:
+                                    src_ = a_
+                kinds_ = _c13.Kinds(ctx, f)
+                signs_ = _c13._sign_names(ctx, f)
+                if _c13._is_sign_adapted(src_, signs_, kinds_):
+                    obs.append(ctx.ob("R02.12", f, c, status=VIOLATION, detail=f"{ci.name}: `{norm(c)[:80]}` stores the SIGN-ADAPTED value (`{norm(src_)[:50]}`, what a minimiser is told) as the individual's fitness: on a maximisation problem the individual carries -f(genome), a value the objective never returned", construct=f"{ci.name}:sign-adapted-fitness"))
+                    continue
                 if ft.endswith(("sprout_seed.fitness", "_sprout_seed.fitness")) or (".sprout_seed" in ft and ft.endswith(".fitness")):
                     obs.append(ctx.ob("R02.12", f, c, status=VIOLATION, detail=f"{ci.name}: `{norm(c)[:80]}` attaches the sprout seed's fitness — computed by the parent level's problem — to an individual of this deme's own problem: with different objectives per level the stored value is not the objective value of the genome", construct=f"{ci.name}:seed-fitness"))
     if n < 8:
@@ -1197,6 +1226,47 @@ def r02_13(ctx: Ctx):
     return obs
 
 
+def r02_14(ctx: Ctx):
+    """R02.14 `Individual.clone()` hands out an individual WITHOUT fitness (it is the offspring helper): a clone that is kept -
+    stored in an attribute, recorded, returned as a seed - without being evaluated first is a stored individual that does not
+    carry the objective value of its genome."""
+    obs = []
+    n = 0
+    for f in ctx.prog.all_functions():
+        if f.name == "<module>" or f.module.name.startswith("pyhms.utils.visualisation"):
+            continue
+        defs = local_defs(f)
+        for c in body_walk(f.node):
+            if not (isinstance(c, ast.Call) and isinstance(c.func, ast.Attribute) and c.func.attr == "clone" and not c.args):
+                continue
+            cs = next((s_ for s_ in ctx.res.callsites(f) if s_.node is c), None)
+            if cs is not None and cs.targets and not any(t.cls is not None and t.cls.name == "Individual" for t in cs.targets):
+                continue
+            n += 1
+            # where does the clone go?
+            kept = None
+            names = set()
+            for y in body_walk(f.node):
+                if isinstance(y, (ast.Assign, ast.AnnAssign)) and getattr(y, "value", None) is not None and any(x is c for x in ast.walk(y.value)):
+                    for t in (y.targets if isinstance(y, ast.Assign) else [y.target]):
+                        if isinstance(t, ast.Attribute):
+                            kept = y
+                        elif isinstance(t, ast.Name):
+                            names.add(t.id)
+            evaluated = any(isinstance(y, ast.Call) and ((isinstance(y.func, ast.Attribute) and y.func.attr in ("evaluate", "evaluate_population") and (norm(y.func.value) in names or any(isinstance(a, ast.Name) and a.id in names for a in y.args))) or (isinstance(y.func, ast.Attribute) and y.func.attr == "evaluate" and any(x is c for x in ast.walk(y.func.value)))) for y in body_walk(f.node))
+            if kept is None and names:
+                for y in body_walk(f.node):
+                    if isinstance(y, (ast.Assign, ast.AnnAssign)) and isinstance(getattr(y, "value", None), ast.Name) and y.value.id in names and any(isinstance(t, ast.Attribute) for t in (y.targets if isinstance(y, ast.Assign) else [y.target])):
+                        kept = y
+            if kept is not None and not evaluated:
+                obs.append(ctx.ob("R02.14", f, kept, status=VIOLATION, detail=f"{f.short} keeps `{norm(kept)[:70]}`: clone() resets the fitness, so the stored individual has a genome and no objective value of it", construct=f"{f.short}:clone-kept"))
+            else:
+                obs.append(ctx.ob("R02.14", f, c, detail=f"{f.short}: the clone is {'evaluated' if evaluated else 'not kept in an attribute'}", construct=f"{f.short}:clone"))
+    if n == 0:
+        obs.append(ctx.ob("R02.14", None, None, subject="pyhms", loc="-", detail="no individual is cloned in pyhms (clone() is a helper for user-defined operators)", construct="no-clone"))
+    return obs
+
+
 RULES = [
     ("R02.1", r02_1, 8),
     ("R02.2", r02_2, 2),
@@ -1211,4 +1281,5 @@ RULES = [
     ("R02.11", r02_11, 1),
     ("R02.12", r02_12, 1),
     ("R02.13", r02_13, 1),
+    ("R02.14", r02_14, 1),
 ]
